@@ -345,6 +345,10 @@ var solvers = []SolverCfg{
 	{"z3-new", func(f string, t, seed int) []string {
 		return []string{"z3-new", "-smt2", fmt.Sprintf("-T:%d", t), fmt.Sprintf("smt.random_seed=%d", seed), f}
 	}},
+	// pure E-matching (no model-based instantiation): decides many goals with nested quantifiers at once
+	{"z3-new-ematch", func(f string, t, seed int) []string {
+		return []string{"z3-new", "-smt2", fmt.Sprintf("-T:%d", t), "smt.auto_config=false", "smt.mbqi=false", fmt.Sprintf("smt.random_seed=%d", seed), f}
+	}},
 	{"z3", func(f string, t, seed int) []string {
 		return []string{"z3", "-smt2", fmt.Sprintf("-T:%d", t), fmt.Sprintf("smt.random_seed=%d", seed), f}
 	}},
@@ -398,7 +402,7 @@ func (o *Obligation) discharge(workdir string, timeoutS int, allSolvers bool, se
 	ch := make(chan res, len(solvers))
 	n := 0
 	for i, sc := range solvers {
-		if !allSolvers && i > 0 {
+		if !allSolvers && i > 1 {
 			break
 		}
 		n++
